@@ -485,3 +485,493 @@ func c11R10(c *Ctx, r *Report) {
 	r.Floor(rule, n, 2, "early returns of widenNumericValue")
 	r.Check(nodeCallsDeep(info, fn.Decl.Body, cast.Obj), rule, fn.Name(), "differing numeric types reach castValue", c.pos(fn.Decl.Pos()), "widenNumericValue never converts")
 }
+
+// ---- batch 3 ------------------------------------------------------------------------------------------------
+
+func init() {
+	lateInits = append(lateInits, func() {
+		props["C11"].Quick = append(props["C11"].Quick, c11R11)
+		props["C08"].Quick = append(props["C08"].Quick, c08R6)
+		props["C10"].Quick = append(props["C10"].Quick, c10R8)
+		props["C12"].Quick = append(props["C12"].Quick, c12R7)
+		props["C16"].Quick = append(props["C16"].Quick, c16R11)
+		props["C17"].Quick = append(props["C17"].Quick, c17R13)
+		props["C13"].Quick = append(props["C13"].Quick, c13R15)
+		props["C11"].Explanation += " (R11) a for-loop variable gets its type from the range; if the parser can hand the type checker an annotated loop variable, the checker's branch for it compares the annotation with the element type."
+		props["C08"].Explanation += " (R6) the type checker and MIR lowering agree on what an index type is: if checkIndexExpr looks through a reference, indexCheckType / checkedIndex do too (otherwise a &i64 index is checked as i32 after truncation)."
+		props["C10"].Explanation += " (R8) a function that recognises a base prefix by looking at fixed positions of a literal's text also accounts for the sign the lexer attaches to the token."
+		props["C12"].Explanation += " (R7) the struct whose fields foreignPrivateField inspects is obtained with types.UnwrapType (the whole alias chain), not from one level of NamedType.Underlying."
+		props["C16"].Explanation += " (R11) a wide constant with a negative literal text is only built under a test that the type is signed (the unsigned wide parser rejects a sign and yields 0)."
+		props["C17"].Explanation += " (R13) MIR lowering of `a[i] op= rhs` on a dynamic array holds no element address across the evaluation of rhs (rhs may append and move the storage)."
+		props["C13"].Explanation += " (R15) the diagnostics emitter slices a source line only with bounds that were compared with its length: columns are not byte offsets (a tab counts four)."
+	})
+}
+
+func c11R11(c *Ctx, r *Report) {
+	const rule = "C11.R11"
+	r.Describe(rule, "parser.parseForStmt builds its iterator DeclItems with Type: nil and does not call parseDeclItem — or the type checker's branch for an annotated iterator (item.Type != nil) calls a compatibility check")
+	pf := c.LookupFn(pkgParserRel, "(*Parser).parseForStmt")
+	pdi := c.LookupFn(pkgParserRel, "(*Parser).parseDeclItem")
+	if !r.Anchor(rule, pf != nil, "parser.(*Parser).parseForStmt") {
+		return
+	}
+	pinfo := pf.Info()
+	canAnnotate := pdi != nil && nodeCallsDeep(pinfo, pf.Decl.Body, pdi.Obj)
+	ast.Inspect(pf.Decl.Body, func(x ast.Node) bool {
+		cl, ok := x.(*ast.CompositeLit)
+		if !ok {
+			return true
+		}
+		if nt := namedOf(pinfo.TypeOf(cl)); nt == nil || nt.Obj().Name() != "DeclItem" {
+			return true
+		}
+		for _, e := range cl.Elts {
+			if kv, ok := e.(*ast.KeyValueExpr); ok && exprStr(kv.Key) == "Type" {
+				if tv, ok := pinfo.Types[kv.Value]; !ok || !tv.IsNil() {
+					canAnnotate = true
+				}
+			}
+		}
+		return true
+	})
+	// the checker's branch
+	checks := false
+	found := false
+	for _, fn := range c.AllFns(pkgTC) {
+		info := fn.Info()
+		isFor := false
+		ast.Inspect(fn.Decl.Body, func(x ast.Node) bool {
+			if bl, ok := x.(*ast.BasicLit); ok {
+				if v := constOf(info, bl); v != nil && v.Kind() == constant.String && constant.StringVal(v) == "for loop iterator cannot have initializer" {
+					isFor = true
+				}
+			}
+			return true
+		})
+		if !isFor {
+			continue
+		}
+		found = true
+		ast.Inspect(fn.Decl.Body, func(x ast.Node) bool {
+			ifs, ok := x.(*ast.IfStmt)
+			if !ok {
+				return true
+			}
+			b, isNeq := isBinOp(ifs.Cond, token.NEQ)
+			if !isNeq || !strings.HasSuffix(exprStr(b.X), "item.Type") {
+				return true
+			}
+			for _, cl := range callsIn(ifs.Body, false) {
+				if f := callee(info, cl); f != nil && (f.Name() == "checkTypeCompatibility" || f.Name() == "checkTypeCompatibilityWithContext" || f.Name() == "checkAssignLike" || f.Name() == "isImplicitlyCompatible") {
+					checks = true
+				}
+			}
+			return true
+		})
+	}
+	if !r.Anchor(rule, found, "typechecker: for-statement iterator check") {
+		return
+	}
+	r.Check(!canAnnotate || checks, rule, pf.Name(), "an annotated loop variable is compared with the element type (or cannot be written)", c.pos(pf.Decl.Pos()),
+		"the parser accepts `for x: i32 in xs` and the type checker takes the annotation as the variable's type without comparing it with the element type: every numeric pair is accepted and the element is converted silently (5000000000 from a []i64 becomes 705032704)")
+}
+
+func c08R6(c *Ctx, r *Report) {
+	const rule = "C08.R6"
+	r.Describe(rule, "typechecker.checkIndexExpr does not dereference the index type — or mir/gen.indexCheckType / checkedIndex dereference it as well")
+	cie := c.LookupFn(pkgTC, "checkIndexExpr")
+	ict := c.LookupFn(pkgMIRGen, "indexCheckType")
+	ci := c.LookupFn(pkgMIRGen, "(*functionBuilder).checkedIndex")
+	if !r.Anchor(rule, cie != nil, "typechecker.checkIndexExpr") {
+		return
+	}
+	info := cie.Info()
+	derefsIndex := false
+	ast.Inspect(cie.Decl.Body, func(x ast.Node) bool {
+		as, ok := x.(*ast.AssignStmt)
+		if !ok || len(as.Lhs) != 1 || len(as.Rhs) != 1 || exprStr(as.Lhs[0]) != "indexType" {
+			return true
+		}
+		for _, cl := range callsIn(as.Rhs[0], false) {
+			if f := callee(info, cl); f != nil && strings.Contains(strings.ToLower(f.Name()), "deref") {
+				derefsIndex = true
+			}
+		}
+		return true
+	})
+	lowerDerefs := false
+	for _, fn := range []*Fn{ict, ci} {
+		if fn == nil {
+			continue
+		}
+		for _, cl := range callsIn(fn.Decl.Body, false) {
+			if f := callee(fn.Info(), cl); f != nil && strings.Contains(strings.ToLower(f.Name()), "deref") {
+				lowerDerefs = true
+			}
+		}
+		ast.Inspect(fn.Decl.Body, func(x ast.Node) bool {
+			if ta, ok := x.(*ast.TypeAssertExpr); ok && ta.Type != nil && strings.HasSuffix(exprStr(ta.Type), "ReferenceType") {
+				lowerDerefs = true
+			}
+			return true
+		})
+	}
+	r.Check(!derefsIndex || lowerDerefs, rule, cie.Name(), "index types seen by the checker and by the lowering are the same", c.pos(cie.Decl.Pos()),
+		"the type checker accepts an index of reference type (`a[i]` with i: &i64) by looking through the reference, but the lowering picks the comparison type from the undereferenced type: &i64 is not i64, so the index is truncated to i32 before the bounds check and a[4294967297] reads a[1]")
+}
+
+func c10R8(c *Ctx, r *Report) {
+	const rule = "C10.R8"
+	r.Describe(rule, "front end: a function that tests text[1] against a base-prefix letter (x, o, b) also mentions the sign character '-' (the lexer's NUMBER token includes a leading minus)")
+	n := 0
+	for _, rel := range []string{pkgParserRel, "internal/frontend/lexer", pkgTC, "internal/hir/gen", "internal/hir/consteval"} {
+		for _, fn := range c.AllFns(rel) {
+			info := fn.Info()
+			prefixTest, sign := false, false
+			var at token.Pos
+			ast.Inspect(fn.Decl.Body, func(x ast.Node) bool {
+				switch y := x.(type) {
+				case *ast.IndexExpr:
+					if v := constOf(info, y.Index); v != nil && v.Kind() == constant.Int && intVal(v) == 1 {
+						if b, ok := info.TypeOf(y.X).Underlying().(*types.Basic); ok && b.Info()&types.IsString != 0 {
+							prefixTest = true
+							at = y.Pos()
+						}
+					}
+				case *ast.BasicLit:
+					if v := constOf(info, y); v != nil {
+						if v.Kind() == constant.Int && y.Kind == token.CHAR && intVal(v) == '-' {
+							sign = true
+						}
+						if v.Kind() == constant.String && strings.Contains(constant.StringVal(v), "-") {
+							sign = true
+						}
+					}
+				}
+				return true
+			})
+			if !prefixTest {
+				continue
+			}
+			// only functions that look for a base prefix: they compare with 'x' / 'X'
+			hasX := false
+			ast.Inspect(fn.Decl.Body, func(x ast.Node) bool {
+				if bl, ok := x.(*ast.BasicLit); ok && bl.Kind == token.CHAR {
+					if v := constOf(info, bl); v != nil && (intVal(v) == 'x' || intVal(v) == 'X') {
+						hasX = true
+					}
+				}
+				return true
+			})
+			if !hasX {
+				continue
+			}
+			n++
+			r.Check(sign, rule, fn.Name(), "base-prefix test accounts for a leading '-'", c.pos(at),
+				"the prefix is looked for at text[0]/text[1], but the lexer emits `-0x7E` as one NUMBER token: the negative hex literal skips the prefix test and its digit E is taken for an exponent, so the in-range literal is classified as a float and rejected")
+		}
+	}
+	r.Note("%s: %d fixed-position prefix tests inspected", rule, n)
+}
+
+func c12R7(c *Ctx, r *Report) {
+	const rule = "C12.R7"
+	r.Describe(rule, "typechecker: the function that reports a foreign struct's private field ranges over the Fields of a struct that comes from types.UnwrapType (in it or in its caller), not from NamedType.Underlying")
+	// the helper: calls IsExported, ranges over .Fields, takes a *types.StructType or derives one
+	var helper *Fn
+	for _, fn := range c.AllFns(pkgTC) {
+		if fn.Obj.Name() == "foreignPrivateField" {
+			helper = fn
+		}
+	}
+	if !r.Anchor(rule, helper != nil, "typechecker.foreignPrivateField") {
+		return
+	}
+	info := helper.Info()
+	defs := localDefs(helper)
+	ok := true
+	why := ""
+	ast.Inspect(helper.Decl.Body, func(x ast.Node) bool {
+		rs, isRange := x.(*ast.RangeStmt)
+		if !isRange || !strings.HasSuffix(exprStr(rs.X), ".Fields") {
+			return true
+		}
+		sel := ast.Unparen(rs.X).(*ast.SelectorExpr)
+		o := objOf(info, sel.X)
+		if o == nil {
+			return true
+		}
+		if isParamOf(helper, o) {
+			return true // the caller hands the struct in; checked below
+		}
+		cands := append([]ast.Expr{}, defs[o]...)
+		// comma-ok definitions: structType, ok := X.(*types.StructType)
+		ast.Inspect(helper.Decl.Body, func(y ast.Node) bool {
+			if as, isAs := y.(*ast.AssignStmt); isAs && len(as.Lhs) == 2 && len(as.Rhs) == 1 && objOf(info, as.Lhs[0]) == o {
+				cands = append(cands, as.Rhs[0])
+			}
+			return true
+		})
+		for _, d := range cands {
+			s := exprStr(d)
+			if strings.Contains(s, ".Underlying") && !strings.Contains(s, "UnwrapType") {
+				ok = false
+				why = s
+			}
+		}
+		return true
+	})
+	// callers that pass a struct: the argument must come from UnwrapType
+	for _, fn := range c.AllFns(pkgTC) {
+		finfo := fn.Info()
+		fdefs := localDefs(fn)
+		for _, cl := range callsIn(fn.Decl.Body, true) {
+			if !isCallTo(finfo, cl, helper.Obj) {
+				continue
+			}
+			for _, a := range cl.Args {
+				if _, isPtr := finfo.TypeOf(a).(*types.Pointer); !isPtr {
+					continue
+				}
+				if nt := namedOf(finfo.TypeOf(a)); nt == nil || nt.Obj().Name() != "StructType" {
+					continue
+				}
+				o := objOf(finfo, a)
+				if o == nil {
+					continue
+				}
+				for _, d := range fdefs[o] {
+					// srcStruct, ok := srcUnwrapped.(*types.StructType) where srcUnwrapped := types.UnwrapType(..)
+					if ta, isTA := ast.Unparen(d).(*ast.TypeAssertExpr); isTA {
+						if o2 := objOf(finfo, ta.X); o2 != nil {
+							for _, d2 := range fdefs[o2] {
+								if !strings.Contains(exprStr(d2), "UnwrapType") {
+									ok = false
+									why = exprStr(d2)
+								}
+							}
+						} else if !strings.Contains(exprStr(ta.X), "UnwrapType") {
+							ok = false
+							why = exprStr(ta.X)
+						}
+					}
+				}
+			}
+		}
+	}
+	r.Check(ok, rule, helper.Name(), "the inspected struct is the fully unwrapped type", c.pos(helper.Decl.Pos()),
+		"the struct is taken from `"+why+"`, one level below the type name: for `type Account Record;` over `type Record struct { …, .balance }` that level is another named type, the private-field guard sees no struct and `acct::Account as Mirror` is accepted")
+}
+
+func c16R11(c *Ctx, r *Report) {
+	const rule = "C16.R11"
+	r.Describe(rule, "mir/gen: a call of emitLargeConst whose literal can be a negative text (a constant starting with '-', or a variable assigned one) lies under a condition that tests the type's signedness")
+	elc := c.LookupFn(pkgMIRGen, "(*functionBuilder).emitLargeConst")
+	if !r.Anchor(rule, elc != nil, "mir/gen emitLargeConst") {
+		return
+	}
+	n := 0
+	for _, fn := range c.AllFns(pkgMIRGen) {
+		info := fn.Info()
+		defs := localDefs(fn)
+		negative := func(e ast.Expr) bool {
+			if v := constOf(info, e); v != nil && v.Kind() == constant.String {
+				return strings.HasPrefix(constant.StringVal(v), "-")
+			}
+			if o := objOf(info, e); o != nil {
+				for _, d := range defs[o] {
+					if v := constOf(info, d); v != nil && v.Kind() == constant.String && strings.HasPrefix(constant.StringVal(v), "-") {
+						return true
+					}
+				}
+				// a parameter: look at the callers' arguments
+				if isParamOf(fn, o) {
+					sig := fn.Obj.Type().(*types.Signature)
+					pi := -1
+					for i := 0; i < sig.Params().Len(); i++ {
+						if sig.Params().At(i) == o {
+							pi = i
+						}
+					}
+					for _, caller := range c.AllFns(pkgMIRGen) {
+						cinfo := caller.Info()
+						cdefs := localDefs(caller)
+						for _, cc := range callsIn(caller.Decl.Body, true) {
+							if !isCallTo(cinfo, cc, fn.Obj) || pi >= len(cc.Args) {
+								continue
+							}
+							a := cc.Args[pi]
+							if v := constOf(cinfo, a); v != nil && v.Kind() == constant.String && strings.HasPrefix(constant.StringVal(v), "-") {
+								return true
+							}
+							if ao := objOf(cinfo, a); ao != nil {
+								for _, d := range cdefs[ao] {
+									if v := constOf(cinfo, d); v != nil && v.Kind() == constant.String && strings.HasPrefix(constant.StringVal(v), "-") {
+										return true
+									}
+								}
+							}
+						}
+					}
+				}
+			}
+			return false
+		}
+		walkWithStack(fn.Decl.Body, func(x ast.Node, stack []ast.Node) bool {
+			cl, ok := x.(*ast.CallExpr)
+			if !ok || !isCallTo(info, cl, elc.Obj) || len(cl.Args) < 2 || !negative(cl.Args[1]) {
+				return true
+			}
+			n++
+			guarded := false
+			for _, a := range stack {
+				if ifs, ok := a.(*ast.IfStmt); ok {
+					cs := exprStr(ifs.Cond)
+					if strings.Contains(cs, "HasPrefix") || strings.Contains(strings.ToLower(cs), "signed") {
+						guarded = true
+					}
+				}
+			}
+			r.Check(guarded, rule, fn.Name(), "negative wide constant "+exprStr(cl.Args[1])+" only for signed types", c.pos(cl.Pos()),
+				"a wide constant is materialised from decimal text at run time and the unsigned parser (u128/u256) rejects a leading '-' and yields 0: `x--` lowered as x + (-1) becomes x + 0 for the unsigned wide types")
+			return true
+		})
+	}
+	r.Floor(rule, n, 1, "negative wide constants")
+}
+
+func c17R13(c *Ctx, r *Report) {
+	const rule = "C17.R13"
+	r.Describe(rule, "mir/gen lowerIndexAssign: no value produced before lowerExpr(rhs) by a helper that emits ferret_array_get without loading (an element address) is used after it")
+	fn := c.LookupFn(pkgMIRGen, "(*functionBuilder).lowerIndexAssign")
+	le := c.LookupFn(pkgMIRGen, "(*functionBuilder).lowerExpr")
+	if !r.Anchor(rule, fn != nil && le != nil, "mir/gen lowerIndexAssign / lowerExpr") {
+		return
+	}
+	info := fn.Info()
+	// position of the lowering of the right-hand side: lowerExpr(rhs) where rhs is the function's parameter
+	var rhsPos token.Pos
+	for _, cl := range callsIn(fn.Decl.Body, false) {
+		if isCallTo(info, cl, le.Obj) && len(cl.Args) == 1 {
+			if o := objOf(info, cl.Args[0]); o != nil && isParamOf(fn, o) {
+				if rhsPos == token.NoPos || cl.Pos() < rhsPos {
+					rhsPos = cl.Pos()
+				}
+			}
+		}
+	}
+	if !r.Anchor(rule, rhsPos != token.NoPos, "lowerIndexAssign: lowerExpr(rhs)") {
+		return
+	}
+	// helpers that return an element address: emit a Call to ferret_array_get and return its Result without emitLoad
+	isAddrHelper := func(f *types.Func) bool {
+		hf := c.FnOf(f)
+		if hf == nil || hf.Decl == nil || hf.Decl.Body == nil {
+			return false
+		}
+		hinfo := hf.Info()
+		getsElem, loads := false, false
+		ast.Inspect(hf.Decl.Body, func(y ast.Node) bool {
+			if bl, ok := y.(*ast.BasicLit); ok {
+				if v := constOf(hinfo, bl); v != nil && v.Kind() == constant.String && constant.StringVal(v) == "ferret_array_get" {
+					getsElem = true
+				}
+			}
+			if cl, ok := y.(*ast.CallExpr); ok {
+				if g := callee(hinfo, cl); g != nil && g.Name() == "emitLoad" {
+					loads = true
+				}
+			}
+			return true
+		})
+		return getsElem && !loads
+	}
+	bad := ""
+	defs := localDefs(fn)
+	for o, ds := range defs {
+		isAddr := false
+		var defPos token.Pos
+		for _, d := range ds {
+			if cl, ok := ast.Unparen(d).(*ast.CallExpr); ok && d.Pos() < rhsPos {
+				if f := callee(info, cl); f != nil && isAddrHelper(f) {
+					isAddr = true
+					defPos = d.Pos()
+				}
+			}
+		}
+		if !isAddr {
+			continue
+		}
+		ast.Inspect(fn.Decl.Body, func(y ast.Node) bool {
+			if id, ok := y.(*ast.Ident); ok && info.Uses[id] == o && id.Pos() > rhsPos {
+				bad = id.Name + " (defined at " + c.pos(defPos) + ", used at " + c.pos(id.Pos()) + ")"
+			}
+			return true
+		})
+	}
+	r.Check(bad == "", rule, fn.Name(), "no element address is kept across the evaluation of the right-hand side", c.pos(fn.Decl.Pos()),
+		"the address of the element "+bad+" is computed before the right-hand side is evaluated and stored through afterwards: when the right-hand side appends to the same array and the storage moves, the store goes into freed memory and the update is lost")
+}
+
+func c13R15(c *Ctx, r *Report) {
+	const rule = "C13.R15"
+	r.Describe(rule, "diagnostics emitter: every slice expression on a string whose bound is derived from a column (…Column, col) is dominated by a comparison of that bound with len of the string")
+	n := 0
+	for _, fn := range c.AllFns("internal/diagnostics") {
+		info := fn.Info()
+		walkWithStack(fn.Decl.Body, func(x ast.Node, stack []ast.Node) bool {
+			se, ok := x.(*ast.SliceExpr)
+			if !ok {
+				return true
+			}
+			if b, ok := info.TypeOf(se.X).Underlying().(*types.Basic); !ok || b.Info()&types.IsString == 0 {
+				return true
+			}
+			colBound := false
+			for _, bnd := range []ast.Expr{se.Low, se.High} {
+				if bnd == nil {
+					continue
+				}
+				s := strings.ToLower(exprStr(bnd))
+				if strings.Contains(s, "col") {
+					colBound = true
+				}
+			}
+			if !colBound {
+				return true
+			}
+			n++
+			guarded := false
+			subj := exprStr(se.X)
+			for _, a := range stack {
+				if ifs, ok := a.(*ast.IfStmt); ok {
+					cs := exprStr(ifs.Cond)
+					if strings.Contains(cs, "len("+subj+")") {
+						guarded = true
+					}
+				}
+			}
+			// or an earlier clamp: `if col > len(line) { col = len(line) }`
+			ast.Inspect(fn.Decl.Body, func(y ast.Node) bool {
+				if ifs, ok := y.(*ast.IfStmt); ok && ifs.Pos() < se.Pos() && strings.Contains(exprStr(ifs.Cond), "len("+subj+")") {
+					guarded = true
+				}
+				return true
+			})
+			r.Check(guarded, rule, fn.Name(), "slice "+exprStr(se)+" is bounded by the line's length", c.pos(se.Pos()),
+				"a source line is sliced at a column: a tab advances the column by four but the byte offset by one, so on a tab-indented line the column exceeds the length, the slice panics and the compiler dies while printing a diagnostic (exit status 2, goroutine dump instead of the error)")
+			return true
+		})
+	}
+	r.Note("%s: %d column-bounded slices inspected", rule, n)
+}
+
+func init() {
+	lateInits = append(lateInits, func() {
+		// the layout of results decides what a native program observes when it catches an error (C01)
+		props["C01"].Quick = append(props["C01"].Quick, c18R3)
+		// sibling agreement of the 128/256-bit runtime functions and the sign of the remainder: what a rewrite
+		// from a folded literal to a run-time operand observes (C09)
+		props["C09"].Quick = append(props["C09"].Quick, c16R2, c16R4)
+	})
+}
